@@ -204,8 +204,16 @@ impl Compiler {
     pub fn compile_ast(&mut self, ast: &BlockStmt) -> Result<Bytecode, Error> {
         // Call compile_statement on each child node directly
         // We don't re-use compile_block_statement here because it exits the global scope
+        let num_globals = self.symbols.num_globals();
         for s in ast {
-            self.compile_statement(s)?;
+            if let Err(e) = self.compile_statement(s) {
+                // This compiler may be used again (REPL): leave nothing of the failed program behind
+                self.instructions.clear();
+                self.last_instruction = None;
+                self.loop_contexts.clear();
+                self.symbols.rollback(num_globals);
+                return Err(e);
+            }
         }
         self.emit_opcode(OpCode::Halt);
         self.instructions.shrink_to_fit();
